@@ -1,0 +1,11 @@
+//go:build verif
+
+// Contracts for gzv (contract-based deductive verification, /verif). Comment-only file.
+package errorx
+
+//@ func In
+//@   property C03
+//@   ensures result == exists(i.(int), 0 <= i && i < len(errs) && errors.Is(err, errs[i]))
+//@   modifies nothing
+//@   loop 0: modifies nothing
+//@   loop 0: invariant forall(j.(int), implies(0 <= j && j < idx, !errors.Is(err, errs[j])))
